@@ -1414,6 +1414,83 @@ def g_replacement(ctx):
                detail="%d delete() site(s) on the old registration" % len(dels))
 
 
+def _fresh_container(e):
+    """Does the expression create a new container (so that mutating it cannot reach stored state)?"""
+    if isinstance(e, (ast.List, ast.Dict, ast.Set, ast.ListComp, ast.DictComp, ast.SetComp, ast.Tuple)):
+        return True
+    if isinstance(e, ast.Call) and chain(e.func) in ("list", "dict", "set", "sorted", "copy.copy", "copy.deepcopy", "tuple"):
+        return True
+    if isinstance(e, ast.Call) and isinstance(e.func, ast.Attribute) and e.func.attr == "copy":
+        return True
+    if isinstance(e, ast.BinOp) and isinstance(e.op, ast.Add):
+        return True  # list + list builds a new list
+    if isinstance(e, ast.Subscript) and isinstance(e.slice, ast.Slice):
+        return True
+    return False
+
+
+@R.clause("C20.h", "lookups only read: the link computations never mutate a container owned by a registration")
+def h_readonly(ctx):
+    """Added after an independently written breaking change let get_based_links append the computed anchor to
+    `link.attr_pairs` itself (an alias instead of a copy): every resource lookup then changed the stored links, which
+    later lookups (after a base change) and GETs of the registration reflected.  Necessary condition: in the two link
+    computations every in-place mutation targets a container created in that call."""
+    MUT = {"append", "extend", "insert", "update", "remove", "pop", "clear", "setdefault", "sort", "reverse", "add", "discard"}
+    n = 0
+    for short in ("cli.rd.CommonRD.Registration.get_based_links", "cli.rd.CommonRD.Registration.get_host_link"):
+        fi = ctx.prog.func(short)
+        bad = []
+        for c in calls_in(fi.node):
+            if isinstance(c.func, ast.Attribute) and c.func.attr in MUT:
+                n += 1
+                recv = c.func.value
+                if isinstance(recv, ast.Name):
+                    ws = writes_to_name(fi.node, recv.id)
+                    vals = [w.value for w in ws if isinstance(w, ast.Assign)]
+                    if not ws or len(vals) != len(ws) or not all(_fresh_container(v) for v in vals):
+                        bad.append((c, [stmt_text(v, 50) for v in vals]))
+                else:
+                    bad.append((c, [stmt_text(recv, 50)]))
+        for st in walk_no_nested(fi.node):
+            if isinstance(st, (ast.Assign, ast.AugAssign, ast.Delete)):
+                tgts = st.targets if not isinstance(st, ast.AugAssign) else [st.target]
+                for t in tgts:
+                    if isinstance(t, (ast.Attribute, ast.Subscript)):
+                        base = t
+                        while isinstance(base, (ast.Attribute, ast.Subscript)):
+                            base = base.value
+                        if isinstance(base, ast.Name):
+                            ws = writes_to_name(fi.node, base.id)
+                            vals = [w.value for w in ws if isinstance(w, ast.Assign)]
+                            if base.id == "self" or not ws or not all(_fresh_container(v) or (isinstance(v, ast.Call) and (chain(v.func) or "").split(".")[-1] in ("Link", "LinkFormat")) for v in vals):
+                                bad.append((st, ["store through %s" % base.id]))
+        for c, why in bad:
+            ctx.ob("a lookup computes its links without modifying what the registration stores", False, fi, c, detail="mutated object defined as %s" % why)
+        if not bad:
+            ctx.ob("%s mutates only containers it created itself" % fi.name, True, fi, fi.node, construct=fi.name)
+    ctx.floor("in-place mutations in the link computations", n, 2)
+
+
+@R.clause("C20.i", "the link-format serialiser keeps empty attribute values: an attribute is written without '=value' only when its value is None")
+def i_linkformat(ctx):
+    """Added after an independently written breaking change tested `not value` instead of `value is None` in
+    util.linkformat.Link.__str__: parameters written as `tag=` came back from lookups as the value-less flag `tag`."""
+    outer = ctx.prog.func("util.linkformat.Link.__str__")
+    inner = None
+    for q, f in ctx.prog.funcs.items():
+        if f.parent is outer and len(f.node.args.args) == 2:
+            inner = f
+    ctx.need(inner is not None, "Link.__str__ has no (key, value) pair formatter")
+    k, v = [a.arg for a in inner.node.args.args]
+    cfg = cfg_of(inner)
+    rets = [r for r in walk_no_nested(inner.node) if isinstance(r, ast.Return)]
+    bare = [r for r in rets if isinstance(r.value, ast.Name) and r.value.id == k]
+    ctx.ob("the value-less form exists (flags such as `obs`)", bool(bare), inner, inner.node, construct="Link.__str__ pair formatter")
+    for r in bare:
+        ctx.ob("the value-less form is chosen exactly for the value None (an empty string keeps its `=\"\"`)", guarded_by(cfg, cfg.loc1(r), "%s is None" % v, True), inner, r,
+               detail="guards: %s" % [(stmt_text(e), p) for e, p in guard_exprs(cfg, cfg.loc1(r))])
+
+
 F = "aiocoap/cli/rd.py"
 # C20.a
 R.seed("C20.a", F, "                self.lt = set_lt\n", "                self.lt = set_lt\n                if set_lt < 60:\n                    raise error.BadRequest(\"lt too small\")\n", "raise after self.lt = ... on a published registration")
@@ -1455,3 +1532,6 @@ R.seed("C20.f", F, "k in (\"page\", \"count\", \"rt\", \"href\", \"anchor\")", "
 
 R.seed("C20.g", F, "        if oldreg is not None:\n            oldreg.delete()\n            if proxy_host is not None:\n                # The old registration's deletion dropped the shared entry\n                setproxyremote(network_remote)\n", "", "old registration's timer left armed: it later deletes the live re-registration")
 R.seed("C20.g", F, "        if oldreg is not None:\n            oldreg.delete()\n", "        if oldreg is not None and proxy_host is not None:\n            oldreg.delete()\n", "old registration deleted only for proxied endpoints")
+
+R.seed("C20.h", F, "                    data = link.attr_pairs + [[\"anchor\", urljoin(href, \"/\")]]", "                    data = link.attr_pairs\n                    data.append([\"anchor\", urljoin(href, \"/\")])", "lookup appends to the registration's stored attribute list")
+R.seed("C20.i", "aiocoap/util/linkformat.py", "            if value is None:\n                return key", "            if not value:\n                return key", "empty attribute values serialised as value-less flags")
